@@ -13,7 +13,6 @@ CONSTANTS
   Extra = {}
   CloseKinds = {}
   Deviations = {}
-  CloseSet = {"local", "peer", "endpoint"}
-  Scenario = "conn"
+  Tier = "thorough"
 SPECIFICATION GWSpec
 INVARIANTS Emit NoStrandedWithoutDeviation
